@@ -240,8 +240,10 @@ class Parser:
                 if self.at("::"):            # turbofish
                     self.i += 1
                     self.eat("<")
-                    self.type_text()
+                    tt = self.type_text()
                     self.eat(">")
+                    if name == "parse":     # `s.parse::<T>()`: which parser runs is in the type argument
+                        name = "parse::<%s>" % "".join(str(tt).split())
                 if self.at("("):
                     e = ("mcall", e, name, self.args())
                 else:
